@@ -173,3 +173,21 @@ ENTRY(c06_date_iserror) {
   __verif_assert(LocalDate::forEpochSeconds(LocalDate::kInvalidEpochSeconds).isError(), "sentinel-seconds");
   __verif_assert(LocalDateTime::forEpochSeconds(LocalDate::kInvalidEpochSeconds).isError(), "sentinel-ldt");
 }
+
+// contract obligation for LocalDateTime::toEpochSeconds(): symbolic valid fields (month a0 as driver case split),
+// value compared with the calendar spec on the Python side; precondition: the value is representable
+ENTRY(c06_ldt_to_seconds) {
+  int8_t yt = __verif_nondet_i8("yearTiny");
+  uint8_t m = __verif_nondet_u8("month"), d = __verif_nondet_u8("day");
+  uint8_t h = __verif_nondet_u8("hour"), mi = __verif_nondet_u8("minute"), s = __verif_nondet_u8("second");
+  __verif_assume(yt != -128 && m == (uint8_t) a0 && d >= 1 && d <= LocalDate::daysInMonth(yt + 2000, m));
+  __verif_assume(h < 24 && mi < 60 && s < 60);
+  // representable range of acetime_t: 1931-12-13T20:45:53 .. 2068-01-19T03:14:07 (assumed through the year here,
+  // exactly on the Python side)
+  __verif_assume(yt >= -69 && yt <= 68);
+  LocalDateTime ldt = LocalDateTime::forTinyComponents(yt, m, d, h, mi, s);
+  // the value must be representable in acetime_t (documented range); toEpochDays() is the c06_date_to_days lemma
+  int64_t total = (int64_t) ldt.localDate().toEpochDays() * 86400 + (int64_t) h * 3600 + (int64_t) mi * 60 + s;
+  __verif_assume(total > INT32_MIN && total <= INT32_MAX);
+  __verif_observe("secs", ldt.toEpochSeconds());
+}
